@@ -264,6 +264,13 @@ func (s *Snapshot) coq(e *Exec) string {
 	for _, p := range s.OwedDelta {
 		owed = append(owed, fmt.Sprintf("(%s, %s)", cStr(p[0]), cAmount(p[1])))
 	}
+	var owedVal, owedComm []string
+	for _, p := range s.OwedVal {
+		owedVal = append(owedVal, fmt.Sprintf("(%s, %s, %s)", cZs(p[0]), cStr(p[1]), cAmount(p[2])))
+	}
+	for _, p := range s.OwedComm {
+		owedComm = append(owedComm, fmt.Sprintf("(%s, %s)", cStr(p[0]), cAmount(p[1])))
+	}
 	var lk []string
 	for _, x := range s.Lookup {
 		v := "None"
@@ -272,7 +279,7 @@ func (s *Snapshot) coq(e *Exec) string {
 		}
 		lk = append(lk, fmt.Sprintf("(%s, %s, %s)", x[0], cBytes(hexDecode(x[1])), v))
 	}
-	return fmt.Sprintf("(mkSnap %d %s %s %s %s %s %s %s %s %s %s %s)", s.Height, sstate, round, cList(pv), cList(vs), cList(dl), cList(ms), cList(vals), cList(pool), cList(owed), cList(lk), cBool(s.Invariant == ""))
+	return fmt.Sprintf("(mkSnap %d %s %s %s %s %s %s %s %s %s %s %s %s %s)", s.Height, sstate, round, cList(pv), cList(vs), cList(dl), cList(ms), cList(vals), cList(pool), cList(owed), cList(owedVal), cList(owedComm), cList(lk), cBool(s.Invariant == ""))
 }
 
 func hexDecode(s string) []byte {
